@@ -36,6 +36,10 @@ def gen_graph(rng, n_max):
             t = rng.choice(nodes)
             c = rng.choice([0, 0, 1, 1, 2, 3, 5])
             edges[(s, a)] = (t, c)
+    if rng.random() < 0.12:
+        # huge integer costs that differ by 1: exact integers, but far beyond where a relative float tolerance separates them
+        K = rng.choice([10 ** 9, 3 * 10 ** 9, 10 ** 12])
+        edges = {k: (t, c + K) for k, (t, c) in edges.items()}
     ng = rng.choice([0, 1, 1, 1, 2, 3])
     goals = set(rng.sample(nodes, min(ng, n)))
     start = rng.choice(nodes)
